@@ -136,8 +136,7 @@ func (c *Connect) Pack(w io.Writer) error {
 
 // Unpack read the packet bytes from io.Reader and decodes it into the packet struct.
 func (c *Connect) Unpack(r io.Reader) (err error) {
-	restBuffer := make([]byte, c.FixHeader.RemainLength)
-	_, err = io.ReadFull(r, restBuffer)
+	restBuffer, err := readRemaining(r, c.FixHeader.RemainLength)
 	if err != nil {
 		return err
 	}
